@@ -39,10 +39,27 @@ pub fn dispatch(mode: &str, f: &[Vec<u8>]) -> Option<R> {
         "a85dec" => one(decode_85(fld(f, 0))),
         "a85enc" => one(encode(fld(f, 0), &StreamFilter::ASCII85Decode)),
         "rledec" => one(run_length_decode(fld(f, 0))),
-        // predictor colors columns inflated zlib
+        // predictor colors columns bpc zlib-data   (the model takes the inflated data in field 4)
         "unpredict" => {
-            let p = params(dec(fld(f, 0)), dec(fld(f, 1)), dec(fld(f, 2)), 8, 1);
+            let p = params(dec(fld(f, 0)), dec(fld(f, 1)), dec(fld(f, 2)), dec(fld(f, 3)), 1);
             one(flate_decode(fld(f, 4), &p))
+        }
+        // file object-number: Stream::data of that stream object (dictionary names the chain)
+        "streamdata" => {
+            use pdf::file::{Storage, NoCache, NoLog};
+            use pdf::object::{ParseOptions, PlainRef, Resolve, Stream};
+            use pdf::primitive::Primitive;
+            let mut st = match Storage::with_cache(fld(f, 0).to_vec(), ParseOptions::strict(), NoCache, NoCache, NoLog) {
+                Ok(s) => s, Err(e) => return Some(Err(ekind(&e))) };
+            if let Err(e) = st.load_storage_and_trailer() { return Some(Err(ekind(&e))); }
+            let r = st.resolver();
+            let prim = match r.resolve(PlainRef { id: dec(fld(f, 1)) as u64, gen: 0 }) {
+                Ok(p) => p, Err(e) => return Some(Err(ekind(&e))) };
+            let s = match prim {
+                Primitive::Stream(s) => s,
+                _ => return Some(Err("NotAStream".into())) };
+            let stream = match Stream::<()>::from_stream(s, &r) { Ok(s) => s, Err(e) => return Some(Err(ekind(&e))) };
+            one(stream.data(&r).map(|d| d.to_vec()))
         }
         // filterspec data
         "enc" => match filter_of(fld(f, 0)) { Some(fl) => one(encode(fld(f, 1), &fl)), None => return None },
